@@ -1,7 +1,7 @@
 (* C16 - schema-supplied strings are data, never code. *)
 From Coq Require Import List String Ascii NArith Bool.
 From Coq Require Import ZArith.
-From Verif Require Import PyStrLit PyStrLitProofs PyLit PyLitProofs Splice DefaultLit DefaultLitProofs SpliceProofs.
+From Verif Require Import PyStrLit PyStrLitProofs PyLit PyLitProofs PyLine PyLineProofs Splice DefaultLit DefaultLitProofs SpliceProofs.
 From VerifGen Require Import K10.
 Import ListNotations.
 Open Scope string_scope.
@@ -153,6 +153,68 @@ Example C16_nonvacuous_default :
   option_map (render_lit (fun _ => true)) (shape default_literal_branches v)
   = Some (codes "(""it's"", v_3, (5,), (), None)").
 Proof. vm_compute. split; reflexivity. Qed.
+
+(* ------------------------------------------------------------------ round 4: the whole LINE *)
+(* a line made of an admissible before-text, repr(s) and a rest that does not start with a quote is
+   tokenized (from any default state, after any earlier lines) as the characters of the before-text,
+   ONE string token with value s, then the rest: before_ok / ctx_ok are exactly what this needs *)
+Theorem C16_line_literal : forall p b s rest prev acc,
+  oracle_ok p -> wf_str s -> before_ok b = true -> ctx_ok rest = true ->
+  tok_line (LDef prev) acc (b ++ py_repr p s ++ rest)
+  = tok_line (LDef false) (TkStr s :: rev (map TkChar b) ++ acc) rest.
+Proof. exact line_literal. Qed.
+Print Assumptions C16_line_literal.
+
+Theorem C16_line_literal_bytes : forall b s rest prev acc,
+  wf_bytes s -> before_ok b = true -> ctx_ok rest = true ->
+  tok_line (LDef prev) acc (b ++ py_repr_bytes s ++ rest)
+  = tok_line (LDef false) (TkBytes s :: rev (map TkChar b) ++ acc) rest.
+Proof. exact line_literal_bytes. Qed.
+Print Assumptions C16_line_literal_bytes.
+
+(* ... instantiated at every repr()/ascii() row of the table read from /repo *)
+Theorem C16_site_line : forall st, In st splice_sites -> s_kind st = KRepr \/ s_kind st = KAscii ->
+  forall p d rest prev acc, oracle_ok p -> wf_str d ->
+  tok_line (LDef prev) acc (codes (s_before st) ++ site_text (s_kind st) p d ++ codes (s_after st) ++ rest)
+  = tok_line (LDef false) (TkStr d :: rev (map TkChar (codes (s_before st))) ++ acc) (codes (s_after st) ++ rest).
+Proof. exact site_line. Qed.
+Print Assumptions C16_site_line.
+
+(* library text (field names, method names, class names, named-tuple keys) placed INSIDE static
+   string literals of the templates: every such placeholder of /repo has a plain origin by K10's
+   rules and plain surroundings, and for plain text the literal denotes before ++ text ++ after *)
+Theorem C16_ident_sites : forallb isite_ok ident_sites = true.
+Proof. exact ident_sites_ok. Qed.
+Print Assumptions C16_ident_sites.
+
+Theorem C16_ident_site : forall st, In st ident_sites ->
+  forall q t rest, codes (i_quote st) = [q] ->
+  Forall (fun c => plain_char c = true) t -> ctx_ok rest = true ->
+  is_quote q = true /\
+  lex_string (q :: (codes (i_before st) ++ t ++ codes (i_after st)) ++ q :: rest)
+  = Some (codes (i_before st) ++ t ++ codes (i_after st), rest).
+Proof. exact ident_site. Qed.
+Print Assumptions C16_ident_site.
+
+Example C16_nonvacuous_ident : Nat.leb 20 (List.length ident_sites) = true.
+Proof. vm_compute. reflexivity. Qed.
+
+(* finite floats (defaults under omit_default): their repr is digits, point, e and signs only (law
+   checked per run: float_text_ok (repr x) for sampled and special floats), and such text opens no
+   literal and no comment on the line *)
+Theorem C16_float_inert : forall t l prev acc,
+  forallb float_char t = true ->
+  exists prev', tok_line (LDef prev) acc (t ++ l) = tok_line (LDef prev') (rev (map TkChar t) ++ acc) l.
+Proof. exact float_inert. Qed.
+Print Assumptions C16_float_inert.
+
+(* the D6 injection seen from the line: the raw splice yields TWO string tokens and code between them *)
+Example C16_line_injection :
+  literals (codes "value = d.get('x', MISSING) or f() or d.get('x', MISSING)")
+  = Some [VS (codes "x"); VS (codes "x")]
+  /\ literals (codes "value = d.get(""x', MISSING) or f() or d.get('x"", MISSING)")
+  = Some [VS (codes "x', MISSING) or f() or d.get('x")].
+Proof. split; vm_compute; reflexivity. Qed.
 
 (* non-vacuity: the hypotheses are met by the adversarial strings, the table is not empty
    and contains every position class the property names *)
